@@ -152,6 +152,27 @@ fn compile_value(ir: &tir::AssetExpr) -> Result<primitives::Value, Error> {
     }
 }
 
+/// The lovelace of an output is the sum of its lovelace entries: make sure it
+/// fits the ledger field before the values are aggregated.
+fn ensure_total_coin_fits(values: &[primitives::Value]) -> Result<(), Error> {
+    let total = values.iter().try_fold(0u64, |acc, value| {
+        let coin = match value {
+            primitives::Value::Coin(x) => *x,
+            primitives::Value::Multiasset(x, _) => *x,
+        };
+
+        acc.checked_add(coin)
+    });
+
+    match total {
+        Some(_) => Ok(()),
+        None => Err(Error::CoerceError(
+            "sum of lovelace amounts".to_string(),
+            "u64".to_string(),
+        )),
+    }
+}
+
 fn compile_adhoc_script(
     adhoc: &tir::AdHocDirective,
 ) -> Result<primitives::ScriptRef<'static>, Error> {
@@ -210,6 +231,8 @@ fn compile_output_block(
         .iter()
         .map(compile_value)
         .collect::<Result<Vec<_>, _>>()?;
+
+    ensure_total_coin_fits(&values)?;
 
     let value = asset_math::aggregate_values(values);
 
@@ -341,6 +364,7 @@ pub fn compile_cardano_publish_directive(
         .iter()
         .map(compile_value)
         .collect::<Result<Vec<_>, _>>()?;
+    ensure_total_coin_fits(&values)?;
     let value = asset_math::aggregate_values(values);
 
     let datum_option = adhoc.data.get("datum").map(compile_data_expr).transpose()?;
